@@ -1,5 +1,6 @@
 (* Entry points of the codec model for the correspondence check. *)
 From FF Require Import model.Bytes model.Show model.Msgp model.Forward model.Render model.Spec model.ChunkId.
+From FF Require Import model.ForwardFast.
 From Coq Require Import String.
 Open Scope N_scope.
 
@@ -157,7 +158,7 @@ Definition run_codec (e : bytes) (args : list bytes) : option bytes :=
       if is e "M_message" then Some (show_bytes_res (M_message (mk_message tag ts rec opt)))
       else if is e "Mchk_forward" then
         (* args: tag entries opt impl *)
-        Some (enc_check (U_forward Slice zero_forward) M_forward show_forward (norm_forward (mk_forward tag ts rec)) (unhex opt))
+        Some (enc_check (U_forward_f Slice zero_forward) M_forward show_forward (norm_forward (mk_forward tag ts rec)) (unhex opt))
       else None
   | [tag; sec; nsec; rec; opt] =>
       if is e "judge_stamped" then Some (judge_stamped tag sec nsec rec opt) else
@@ -188,10 +189,10 @@ Definition run_codec (e : bytes) (args : list bytes) : option bytes :=
       else if is e "judge_chunk" then Some (judge_chunk a b)
       else if is e "U_message" then Some (show_dec show_message (U_message p zero_message bs))
       else if is e "U_message_ext" then Some (show_dec show_message_ext (U_message_ext p zero_message_ext bs))
-      else if is e "U_forward" then Some (show_dec show_forward (U_forward p zero_forward bs))
+      else if is e "U_forward" then Some (show_dec show_forward (U_forward_f p zero_forward bs))
       else if is e "U_packed" then Some (show_dec show_packed (U_packed p zero_packed bs))
       else if is e "U_entry" then Some (show_dec show_entry (U_entry p bs))
-      else if is e "U_entry_list" then Some (show_dec show_entries (U_entry_list p bs))
+      else if is e "U_entry_list" then Some (show_dec show_entries (U_entry_list_f p bs))
       else if is e "U_ack" then Some (show_dec hex (U_ack p bs))
       else if is e "U_options" then Some (show_dec (fun o => show_opts (Some o)) (U_options p bs))
       else if is e "rd_intf" then Some (show_dec show_gval (rd_intf p (fuel_for bs) bs))
@@ -202,7 +203,7 @@ Definition run_codec (e : bytes) (args : list bytes) : option bytes :=
         Some (show_res (fun t => show_Z (fst t) ++ str "." ++ show_N (snd t)) (dec_eventtime (unhex a)))
       else if is e "get_chunk" then Some (show_bytes_res (get_chunk (unhex a)))
       else if is e "chunk_id" then Some (make_chunk_id (fun _ => unhex a) 0)
-      else if is e "unmarshal_packed" then Some (show_res show_entries (unmarshal_packed (unhex a)))
+      else if is e "unmarshal_packed" then Some (show_res show_entries (unmarshal_packed_f (unhex a)))
       else if is e "marshal_packed" then Some (show_bytes_res (marshal_packed (desc_entries a)))
       else if is e "M_entry_list" then Some (show_bytes_res (M_entry_list (desc_entries a)))
       else if is e "M_ack" then Some (show_bytes_res (Ok (M_ack (unhex a))))
